@@ -89,6 +89,9 @@ def run(tier, out, model_ok, proof):
         docs.append(treecorr.gen_structured(rng, with_macros=rng.random() < 0.3))
     for i, roots in enumerate(docs):
         cases.append(treecorr.single_file_case("a%d" % i, C09.render_nodes(roots)))
+    # every consumer of a type reference x every kind of type (checks/C01.py): the accepted ones must serialise
+    for name, d in importlib.import_module("checks.C01").reference_matrix():
+        cases.append(treecorr.single_file_case("rm_" + name, d))
     for k, d in enumerate(LATE):
         cases.append(treecorr.single_file_case("late%d" % k, d))
     # names that become JSON object keys (interaction ids, tag / server / type / enum names) and
